@@ -9,7 +9,8 @@
    in which an operation fails is rolled back as a whole (bolt). *)
 From Coq Require Import List NArith ZArith Bool.
 From Storage Require Import Base.Bytes Links.LinkModel Links.LinkModelProofs Links.SetLinksMerge
-  Links.SetLinksMergeProofs Links.RefCount Links.RefCountProofs Links.LinkMachine Links.LinkMachineProofs.
+  Links.SetLinksMergeProofs Links.RefCount Links.RefCountProofs Links.LinkMachine Links.LinkMachineProofs
+  Links.HierMachine Links.HierProofs.
 Import ListNotations.
 Local Open Scope Z_scope.
 
@@ -143,3 +144,80 @@ Theorem absent_entity_has_no_links : forall (U : univ) (h : history), hist_in U 
               rc s sd x k = None /\ rc s (other sd) k x = None.
 Proof. exact absent_entity_has_no_links_lemma. Qed.
 Print Assumptions absent_entity_has_no_links.
+
+(* ==== collections owned by the stores of a parent / child hierarchy (Links/HierMachine.v) =================
+
+   Each side is a family of stores: the root store (level 0) and its child stores (levels 1..n, plain
+   or Extended()).  A topology [T] lists collection pairs; pair p joins the store of level [lvl T p A]
+   of family A with the store of level [lvl T p B] of family B by a link collection and a ref-counted
+   link collection.  [hp h sd k x]: store k of family sd holds entity x; [hl h p] / [hr h p]: the link
+   and count buckets of pair p.  Creates and deletes go through ANY store of a family. *)
+
+(* every state a history reaches satisfies, for every pair, the invariants of the flat machine on the
+   view of that pair; child stores only hold entities their root store holds *)
+Theorem hier_reachable_invariants : forall (T : topo) (U : univ) (hs : hhistory), hhist_in U hs ->
+  hhist_counts_ok hs -> hhist_bound 0 hs <= max_int32 -> hinv T U (hhist_bound 0 hs) (run_hhist T U hs hinit).
+Proof. exact hier_reachable_lemma. Qed.
+Print Assumptions hier_reachable_invariants.
+
+(* After ANY history over ANY topology: every pair of collections - on root stores, on child stores,
+   mixed - is symmetric (raw buckets, GetLinks, IsLinked), joins only entities that its two stores
+   (and therefore the two root stores) hold, and both sides hold the same positive count or none. *)
+Theorem hier_links_symmetric_counts_agree : forall (T : topo) (U : univ) (hs : hhistory), hhist_in U hs ->
+  hhist_counts_ok hs -> hhist_bound 0 hs <= max_int32 ->
+  let h := run_hhist T U hs hinit in
+  forall p, (p < npairs T)%nat -> forall sd a b,
+  (hl h p sd a b = true <-> hl h p (other sd) b a = true) /\
+  (In b (get_links U (view T p h) sd a) <-> In a (get_links U (view T p h) (other sd) b)) /\
+  is_linked (view T p h) sd a b = is_linked (view T p h) (other sd) b a /\
+  (hl h p sd a b = true ->
+     hp h sd (lvl T p sd) a = true /\ hp h (other sd) (lvl T p (other sd)) b = true /\
+     hp h sd 0%nat a = true /\ hp h (other sd) 0%nat b = true) /\
+  match hr h p sd a b, hr h p (other sd) b a with
+  | Some c, Some c' => c = c' /\ 0 < c <= max_int32
+  | None, None => True
+  | _, _ => False
+  end.
+Proof. exact hier_pairs_lemma. Qed.
+Print Assumptions hier_links_symmetric_counts_agree.
+
+(* an entity that the root store of its family does not hold (never created, deleted through whichever
+   store, not yet re-created) is held by no child store and has no link and no count in ANY pair of
+   ANY store level, on either side *)
+Theorem hier_absent_entity_has_no_links : forall (T : topo) (U : univ) (hs : hhistory), hhist_in U hs ->
+  hhist_counts_ok hs -> hhist_bound 0 hs <= max_int32 ->
+  let h := run_hhist T U hs hinit in
+  forall sd x, hp h sd 0%nat x = false ->
+  (forall k, hp h sd k x = false) /\
+  forall p, (p < npairs T)%nat -> forall k,
+    hl h p sd x k = false /\ hl h p (other sd) k x = false /\ hr h p sd x k = None /\ hr h p (other sd) k x = None.
+Proof. exact hier_absent_lemma. Qed.
+Print Assumptions hier_absent_entity_has_no_links.
+
+(* DeleteById through ANY store of the family (root or child, whether or not the entity was created
+   through it), in any state satisfying the invariants: afterwards no store of the family holds the
+   entity; no pair of any store level keeps a link or a count from it or to it; every other entity,
+   link and count is untouched; the invariants hold again. *)
+Theorem hier_delete_cleans_every_level : forall T U M sd lv x h h', hinv T U M h ->
+  hdelete T U sd lv x h = HDone h' ->
+  hinv T U M h' /\ (forall k, hp h' sd k x = false) /\
+  (forall sd' k x', (sd', x') <> (sd, x) -> hp h' sd' k x' = hp h sd' k x') /\
+  (forall p, (p < npairs T)%nat -> forall k,
+     hl h' p sd x k = false /\ hl h' p (other sd) k x = false /\ hr h' p sd x k = None /\ hr h' p (other sd) k x = None) /\
+  (forall p, (p < npairs T)%nat -> forall sd' a b, (sd', a) <> (sd, x) -> (sd', b) <> (other sd, x) ->
+     hl h' p sd' a b = hl h p sd' a b /\ hr h' p sd' a b = hr h p sd' a b).
+Proof. exact hdelete_cleans_lemma. Qed.
+Print Assumptions hier_delete_cleans_every_level.
+
+(* the delete of an existing entity through an existing store succeeds, except when an Extended child
+   store that owns a collection has no data for the entity (EntityDeleted of that collection reports
+   "not found"; behaviour of the code as it is, see design/C05.md) - then it is refused *)
+Theorem hier_delete_succeeds : forall T U sd lv x h, level_ok T sd lv = true -> hp h sd 0%nat x = true ->
+  ext_blocked T h sd x = false -> exists h', hdelete T U sd lv x h = HDone h'.
+Proof. exact hdelete_succeeds_lemma. Qed.
+Print Assumptions hier_delete_succeeds.
+
+Theorem hier_delete_refused_when_ext_blocked : forall T U sd lv x h h', ext_blocked T h sd x = true ->
+  hdelete T U sd lv x h <> HDone h'.
+Proof. exact hdelete_blocked_lemma. Qed.
+Print Assumptions hier_delete_refused_when_ext_blocked.
